@@ -47,12 +47,12 @@ type boundProver struct {
 
 // boundAbstentions: bounds the constant-interval prover cannot establish; keyed "function | construct".
 var boundAbstentions = map[string]string{
-	"object.(SmallMap).Set | index into [4]object.keyValuePair":    "relational: the index returned by get() is <= len before the increment, and the function only continues when len+1 <= 4; the interval prover only knows get() <= 4",
-	"object.(SmallMap).Set | index into [4]object.keyValuePair #4": "relational: same index as above, on the insertion store",
+	"object.(SmallMap).Set | index into [4]object.keyValuePair":                               "relational: the index returned by get() is <= len before the increment, and the function only continues when len+1 <= 4; the interval prover only knows get() <= 4",
+	"object.(SmallMap).Set | index into [4]object.keyValuePair #4":                            "relational: same index as above, on the insertion store",
 	"object.(SmallMap).Delete | local SmallMap leaves the function with SmallMap.len <= 4 #3": "relational: len-1 >= 0 because get() reported the key found, which needs len >= 1",
 	"object.(SmallMap).Range | local SmallMap leaves the function with SmallMap.len <= 4":     "relational across a type switch: the only caller (object.Range, reached from evalIndexRangeExpression) passes 0 <= l <= r <= Len() of this very map, which is <= 4 because it is a SmallMap",
-	"object.(SmallMap).Range | low bound into [4]object.keyValuePair":                          "same caller argument as above",
-	"object.(SmallMap).Range | high bound into [4]object.keyValuePair":                         "same caller argument as above",
+	"object.(SmallMap).Range | low bound into [4]object.keyValuePair":                         "same caller argument as above",
+	"object.(SmallMap).Range | high bound into [4]object.keyValuePair":                        "same caller argument as above",
 }
 
 func (c *Ctx) newBoundProver() *boundProver {
@@ -124,10 +124,16 @@ func (bp *boundProver) fieldOfValue(x *ssa.Field) *fieldBound {
 // sameLoc: two values that are the same SSA value, or loads of the same field of the same base with no
 // store to that field (of any object of the type, in this function) that can lie between them.
 func (bp *boundProver) sameLoc(a, b ssa.Value) bool {
-	return bp.sameLocD(a, b, 0)
+	return bp.sameLocD(a, b, 0, false)
 }
 
-func (bp *boundProver) sameLocD(a, b ssa.Value, depth int) bool {
+// sameLocFrom: like sameLoc, for a fact established on `fact` and used at `use`: only stores that can
+// execute after the fact and before the use matter.
+func (bp *boundProver) sameLocFrom(fact, use ssa.Value) bool {
+	return bp.sameLocD(fact, use, 0, true)
+}
+
+func (bp *boundProver) sameLocD(a, b ssa.Value, depth int, directed bool) bool {
 	a, b = stripConvert(a), stripConvert(b)
 	if a == b {
 		return true
@@ -144,7 +150,7 @@ func (bp *boundProver) sameLocD(a, b ssa.Value, depth int) bool {
 		ba, ok1 := ca.Common().Value.(*ssa.Builtin)
 		bb, ok2 := cb.Common().Value.(*ssa.Builtin)
 		if ok1 && ok2 && ba.Name() == bb.Name() && (ba.Name() == "len" || ba.Name() == "cap") {
-			return bp.sameLocD(ca.Common().Args[0], cb.Common().Args[0], depth+1)
+			return bp.sameLocD(ca.Common().Args[0], cb.Common().Args[0], depth+1, directed)
 		}
 		return false
 	}
@@ -155,7 +161,7 @@ func (bp *boundProver) sameLocD(a, b ssa.Value, depth int) bool {
 		}
 		ka, ok1 := constInt(xa.Y)
 		kb, ok2 := constInt(xb.Y)
-		return ok1 && ok2 && ka == kb && bp.sameLocD(xa.X, xb.X, depth+1)
+		return ok1 && ok2 && ka == kb && bp.sameLocD(xa.X, xb.X, depth+1, directed)
 	}
 	la, ok1 := a.(*ssa.UnOp)
 	lb, ok2 := b.(*ssa.UnOp)
@@ -164,7 +170,7 @@ func (bp *boundProver) sameLocD(a, b ssa.Value, depth int) bool {
 	}
 	fa, ok1 := la.X.(*ssa.FieldAddr)
 	fb, ok2 := lb.X.(*ssa.FieldAddr)
-	if !ok1 || !ok2 || fa.Field != fb.Field || !(sameValue(fa.X, fb.X) || bp.sameLocD(fa.X, fb.X, depth+1)) {
+	if !ok1 || !ok2 || fa.Field != fb.Field || !(sameValue(fa.X, fb.X) || bp.sameLocD(fa.X, fb.X, depth+1, directed)) {
 		return false
 	}
 	// stores to this field between the two loads
@@ -183,7 +189,7 @@ func (bp *boundProver) sameLocD(a, b ssa.Value, depth int) bool {
 			if _, otherAlloc := sfa.X.(*ssa.Alloc); otherAlloc && baseIsAlloc && sfa.X != fa.X {
 				continue // another local struct
 			}
-			if between(la, st, lb) || between(lb, st, la) {
+			if between(la, st, lb) || (!directed && between(lb, st, la)) {
 				return false
 			}
 		}
@@ -191,9 +197,39 @@ func (bp *boundProver) sameLocD(a, b ssa.Value, depth int) bool {
 	return true
 }
 
-// between: instruction m can execute after a and before b on some path.
+// between: instruction m can execute after a and before b on some path that does not come back to a first
+// (a fact established at a is established again whenever a executes again).
 func between(a, m, b ssa.Instruction) bool {
-	return reachesInstr(a, m) && reachesInstr(m, b)
+	return reachesAvoiding(a, m, a) && reachesAvoiding(m, b, a)
+}
+
+// reachesAvoiding: b can execute after a without a's block being re-entered on the way (other than as the start).
+func reachesAvoiding(a, b, avoid ssa.Instruction) bool {
+	if a.Block() == b.Block() && instrIndex(a) < instrIndex(b) {
+		return true
+	}
+	seen := map[*ssa.BasicBlock]bool{}
+	stack := append([]*ssa.BasicBlock{}, a.Block().Succs...)
+	for len(stack) > 0 {
+		x := stack[len(stack)-1]
+		stack = stack[:len(stack)-1]
+		if seen[x] {
+			continue
+		}
+		seen[x] = true
+		if x == b.Block() {
+			if x != avoid.Block() || b == avoid || instrIndex(b) <= instrIndex(avoid) {
+				return true
+			}
+			// b sits after `avoid` in the same block: reaching it means passing avoid again
+			continue
+		}
+		if x == avoid.Block() {
+			continue
+		}
+		stack = append(stack, x.Succs...)
+	}
+	return false
 }
 
 func reachesInstr(a, b ssa.Instruction) bool {
@@ -401,9 +437,9 @@ func (bp *boundProver) fromCond(v ssa.Value, cc ctrlCond, at *ssa.BasicBlock, de
 	}
 	var other ssa.Value
 	switch {
-	case bp.sameLoc(bin.X, v):
+	case bp.sameLocFrom(bin.X, v):
 		other = bin.Y
-	case bp.sameLoc(bin.Y, v):
+	case bp.sameLocFrom(bin.Y, v):
 		other = bin.X
 		op = flipOp[op]
 	default:
@@ -882,9 +918,9 @@ func (bp *boundProver) lowerFromCond(v ssa.Value, cc ctrlCond, k int64, depth in
 	}
 	var other ssa.Value
 	switch {
-	case bp.sameLoc(bin.X, v):
+	case bp.sameLocFrom(bin.X, v):
 		other = bin.Y
-	case bp.sameLoc(bin.Y, v):
+	case bp.sameLocFrom(bin.Y, v):
 		other = bin.X
 		op = flipOp[op]
 	default:
